@@ -1,0 +1,34 @@
+//! Read-only access to crate-private helpers for external conformance
+//! harnesses. Compiled only with `--cfg pc_verif`; adds no behaviour.
+use crate::{LinearCombination, QuerySet};
+use ark_ff::Field;
+#[cfg(not(feature = "std"))]
+use ark_std::vec::Vec;
+
+/// Wrapper around the crate-private `lc_query_set_to_poly_query_set`.
+pub fn lc_query_set_to_poly_query_set<'a, F: Field, T: Clone + Ord>(
+    linear_combinations: impl IntoIterator<Item = &'a LinearCombination<F>>,
+    query_set: &QuerySet<T>,
+) -> QuerySet<T> {
+    crate::lc_query_set_to_poly_query_set(linear_combinations, query_set)
+}
+
+/// Wrapper around the crate-private `utils::inner_product`.
+pub fn inner_product<F: Field>(v1: &[F], v2: &[F]) -> F {
+    crate::utils::inner_product(v1, v2)
+}
+
+/// Wrapper around the crate-private `utils::ceil_div`.
+pub fn ceil_div(x: usize, y: usize) -> usize {
+    crate::utils::ceil_div(x, y)
+}
+
+/// Rows of a crate-private `utils::Matrix`.
+pub fn matrix_rows<F: Field>(m: &crate::utils::Matrix<F>) -> Vec<Vec<F>> {
+    m.rows()
+}
+
+pub use crate::hyrax::verif_hooks as hyrax;
+pub use crate::linear_codes::verif_hooks as linear_codes;
+pub use crate::marlin::marlin_pst13_pc::verif_hooks as pst13;
+pub use crate::streaming_kzg::verif_hooks as streaming_kzg;
